@@ -152,7 +152,11 @@ ValNeg(x) ==
     ELSE Err("neg")
 ValSub(x, y) ==
     IF x.k = "number" /\ y.k = "number" THEN NumOrOverflow(Sub(x.num, y.num))
-    ELSE IF x.k = "assetval" /\ y.k = "assetval" THEN AssetOrOverflow(VSub(x.val, y.val))
+    \* (asset subtraction adds the negated bundle: when an amount of y is the least 128-bit integer that negation
+    \* overflows although the difference may fit -- failing there is an admitted answer, so the corner is left open)
+    ELSE IF x.k = "assetval" /\ y.k = "assetval"
+         THEN IF (\E c \in DOMAIN y.val : y.val[c] = I128Min) /\ ~IsErr(AssetOrOverflow(VSub(x.val, y.val))) THEN Unspec
+              ELSE AssetOrOverflow(VSub(x.val, y.val))
     ELSE IF x.k = "none" \/ y.k = "none" THEN Unspec
     ELSE Err("sub")
 ValConcat(x, y) ==
